@@ -233,7 +233,9 @@ fn nonlocal_expr(rng: &mut Rng, cap: Option<&str>, pre: &mut Vec<String>, sub: &
     };
     let n = rng.below(4);
     for i in 0..n {
-        cur = match rng.below(7) {
+        cur = match rng.below(9) {
+            7 => { sub.push_str("+setcomp-elem"); format!("{{ {} for zc{} in [1, 2] }}", cur, i) }
+            8 => { sub.push_str("+comp-elem"); format!("[ [{}, zc{}] for zc{} in [1] ]", cur, i, i) }
             0 => { sub.push_str("+list"); format!("[{}]", cur) }
             1 => { sub.push_str("+set-lit"); format!("{{{}, 1}}", cur) }
             2 => { sub.push_str("+call"); format!("(concat {} [1])", cur) }
